@@ -29,6 +29,11 @@ enum In {
     Unreadable,
     /// aggregate status file present but not a JSON document (caught half-written, or damaged)
     Garbled,
+    /// file of the expected version in which the agent reports its own overall state as ERROR (what it writes while key
+    /// latch, redirector or listener are not running yet); whether that is a failed or a successful *health observation*
+    /// the statement does not say: it counts as neither a success (nothing is demanded after it) nor as one of the 20
+    /// failures... conservatively it does count towards the failures an Error report needs
+    AgentSaysError,
     /// file written by another agent version
     Mismatch,
     /// file of the expected version
@@ -51,10 +56,14 @@ impl In {
 }
 
 fn status_doc(version: &str) -> String {
+    status_doc_overall(version, "SUCCESS")
+}
+
+fn status_doc_overall(version: &str, overall: &str) -> String {
     let detail = json!({"status": "RUNNING", "message": "ok"});
     json!({
         "timestamp": "2026-01-01T00:00:00Z",
-        "proxyAgentStatus": {"version": version, "status": "SUCCESS", "monitorStatus": detail, "keyLatchStatus": detail, "ebpfProgramStatus": detail, "proxyListenerStatus": detail, "telemetryLoggerStatus": detail, "proxyConnectionsCount": 3},
+        "proxyAgentStatus": {"version": version, "status": overall, "monitorStatus": detail, "keyLatchStatus": detail, "ebpfProgramStatus": detail, "proxyListenerStatus": detail, "telemetryLoggerStatus": detail, "proxyConnectionsCount": 3},
         "proxyConnectionSummary": [],
         "failedAuthenticateSummary": []
     })
@@ -75,8 +84,9 @@ fn new_status() -> StatusObj {
 
 fn apply(run: &mut Run, i: In) {
     match i {
-        In::Unreadable | In::Garbled | In::Mismatch | In::Healthy => {
+        In::Unreadable | In::Garbled | In::Mismatch | In::Healthy | In::AgentSaysError => {
             match i {
+                In::AgentSaysError => std::fs::write(STATUS_FILE, status_doc_overall(EXT_VERSION, "ERROR")).unwrap(),
                 In::Unreadable => {
                     let _ = std::fs::remove_file(STATUS_FILE);
                 }
@@ -176,6 +186,13 @@ fn main() {
     }
     // alternations: a condition that comes and goes every pass, every second pass, every fifth pass (the notifications of
     // a state variable that did not change in between must stay throttled)
+    for k in [1usize, 2, 5, 19, 25] {
+        // the agent says ERROR for k passes after two healthy ones, then mixed with real failures
+        let mut v = vec![In::Healthy, In::Healthy];
+        v.extend(vec![In::AgentSaysError; k]);
+        v.extend([In::Healthy, In::AgentSaysError, In::Unreadable, In::AgentSaysError, In::Healthy, In::Healthy]);
+        seqs.push(v);
+    }
     for (a, b) in [(In::Healthy, In::Unreadable), (In::Healthy, In::Garbled), (In::Mismatch, In::Unreadable), (In::Healthy, In::Mismatch), (In::Healthy, In::Exit1)] {
         for period in [1usize, 2, 5] {
             let mut v = Vec::new();
@@ -197,6 +214,8 @@ fn main() {
         for (si, seq) in seqs.iter().enumerate() {
             let mut run = Run { status: new_status(), state: StatusState::new(), svc: ServiceState::default(), restored: true, folder: base.join("status") };
             let (mut fails, mut succ) = (0u32, 0u32);
+            let mut ambiguous_since_success = false;
+            let _ = &ambiguous_since_success;
             let mut run_in: Option<In> = None;
             let mut run_len = 0u32;
             let mut emitted_in_run: BTreeMap<String, u32> = BTreeMap::new();
@@ -206,9 +225,15 @@ fn main() {
             for (pi, &i) in seq.iter().enumerate() {
                 apply(&mut run, i);
                 passes += 1;
-                if i.success() {
+                if i == In::AgentSaysError {
+                    // neither demanded to be a success nor to break a run of failures
+                    fails += 1;
+                    succ = 0;
+                    ambiguous_since_success = true;
+                } else if i.success() {
                     succ += 1;
                     fails = 0;
+                    ambiguous_since_success = false;
                 } else {
                     fails += 1;
                     succ = 0;
@@ -267,6 +292,6 @@ fn main() {
     res.cov("notification_classes", json!(classes));
     res.cov("evaluations", passes);
     res.cov("exhaustive", true);
-    res.cov("monitor_rule", format!("every sequence of {la} monitor passes over {{status file absent, other version, healthy, present but not JSON}} and of {lb} passes over {{setup tool not startable, exit 1, exit 0, healthy, absent}}, sustained conditions of 250 passes and 125 passes after a change, failure runs of 18..25 passes of five kinds followed by successes, conditions alternating every 1/2/5 passes (30 phases); the real report_proxy_agent_aggregate_status / report_proxy_agent_service_status (through the guarded verif_access module) with the real event logger on a paused clock"));
+    res.cov("monitor_rule", format!("every sequence of {la} monitor passes over {{status file absent, other version, healthy, present but not JSON}} and of {lb} passes over {{setup tool not startable, exit 1, exit 0, healthy, absent}}, sustained conditions of 250 passes and 125 passes after a change, failure runs of 18..25 passes of five kinds followed by successes, conditions alternating every 1/2/5 passes (30 phases), runs of 1..25 passes in which the agent's own overall state is ERROR in a file of the expected version; the real report_proxy_agent_aggregate_status / report_proxy_agent_service_status (through the guarded verif_access module) with the real event logger on a paused clock"));
     std::process::exit(res.finish());
 }
